@@ -177,7 +177,11 @@ def judge(cond, role, rec, msg, call_args, a_repr, strict_none=True):
             if inf["text"] not in shown:
                 where = "plain"
                 # inside an f-string nothing is listed (KF-C06-2), whatever else the node is
-                if inf.get("in_fstring"):
+                if inf["type"] == "Name" and inf["id"] in getattr(rec, "comp_walrus", ()):
+                    # bound by a named expression inside a comprehension: the re-computation runs the comprehension as compiled
+                    # code and can not retrieve the binding (KF-C06-3); the name must then not be listed with another value
+                    where = "name_bound_by_walrus_inside_comprehension"
+                elif inf.get("in_fstring"):
                     where = "inside_fstring"
                 elif inf.get("in_first_iter"):
                     where = "first_iterable_of_comprehension"
@@ -261,7 +265,7 @@ def check_batch(batch, acc, vals, level):
     exec(expr.GLOBALS_SRC, genv)
     genv.update(expr.CLOSURE)
     genv.update(expr.OWN_DEFAULTS)
-    resolvable = set(expr.PARAMS) | {"G", "GL", "IMPOSSIBLE", "C", "CL", "self", "t"} | set(expr.OWN_DEFAULTS)
+    resolvable = set(expr.PARAMS) | {"G", "GL", "GW", "IMPOSSIBLE", "C", "CL", "self", "t"} | set(expr.OWN_DEFAULTS)
     for idx, (typ, e, fi, cond) in batch:
         role = role_of(idx)
         if role == "invariant" and expr.own_default_params(cond):
